@@ -213,10 +213,15 @@ def compute_combined_features(
     if is_prior_heuristic(args):
         full_combination_space = full_combination_space + [tuple for tuple in model_combinations if tuple not in full_combination_space]
 
+    def length_prefixed(feature):
+        # '<len>:<value>' keeps the concatenation below uniquely decodable
+        values = input_dataframe[feature].astype(str)
+        return values.str.len().astype(str) + ':' + values
+
     def combine_features(new_combination):
-        combined_feature = input_dataframe[new_combination[0]].astype(str)
+        combined_feature = length_prefixed(new_combination[0])
         for feature in new_combination[1:]:
-            combined_feature += input_dataframe[feature].astype(str)
+            combined_feature += length_prefixed(feature)
         combined_feature = combined_feature.apply(lambda x: xxhash.xxh64(x.encode('utf-8')).hexdigest())
         ftr_name = join_string.join(new_combination)
         return ftr_name, combined_feature
